@@ -17,7 +17,7 @@ Fixpoint size (v : pval) : nat :=
   | PSeq _ _ _ _ _ l => S (sum_map (fun x => size x) l)
   | PDict _ _ _ l => (2 + sum_map (fun kv => size (snd kv)) l)%nat
   | PDefDict _ _ _ f l => (3 + size f + sum_map (fun kv => size (snd kv)) l)%nat
-  | PObjArr _ _ _ _ l => S (sum_map (fun x => size x) l)
+  | PObjArr _ _ _ _ l => (3 + sum_map (fun x => size x) l)%nat
   | PMasked _ _ _ d k => S (size d + size k)
   | PRandState _ _ _ x => S (size x)
   | PRandGen _ _ _ x y => S (size x + size y)
@@ -89,6 +89,30 @@ Proof.
   induction kvs as [|[k j] kvs IH]; intros m; [reflexivity|]. cbn [sub_dict map sub_gen fst snd].
   destruct (rec extra (SKey name k) m j) as [[n m1]|]; [|reflexivity]. cbn [bind]. rewrite IH. reflexivity.
 Qed.
+
+(* get_state(obj.tolist()) of a rank-1 object array: one fresh list around the states of the cells *)
+Lemma tolist_rank1 (f : pval -> clo) cells : forall st,
+  tolist_state [length cells] (map f cells) st
+  = let (lid, st0) := fresh st in
+    do (js, st1) <- states_of f cells st0; Ok (list_state js lid, [], st1).
+Proof.
+  intros st. cbn [tolist_state]. destruct (fresh st) as [lid st0].
+  match goal with |- context [(fix rep (n : nat) (cs : list clo) (st : dst) {struct n} := _)] =>
+    set (rep := (fix rep (n : nat) (cs : list clo) (st : dst) {struct n} : res (list json * list clo * dst) := _)) end.
+  assert (Hrep : forall cells st0, rep (length cells) (map f cells) st0
+                 = do (js, st1) <- states_of f cells st0; Ok (js, [], st1)).
+  { clear. induction cells as [|x cells IH]; intros st0; [reflexivity|].
+    cbn [length map states_of]. unfold rep at 1. cbn [tolist_state]. fold rep.
+    destruct (f x st0) as [[j st1]|]; [|reflexivity]. cbn [bind]. rewrite IH.
+    destruct (states_of f cells st1) as [[js st2]|]; reflexivity. }
+  rewrite Hrep. destruct (states_of f cells st0) as [[js st1]|]; reflexivity.
+Qed.
+(* get_state(obj.shape) of a rank-1 array whose length is a cached small int: one fresh tuple around the int *)
+Lemma shape_state_small n st : is_small_int n = true ->
+  shape_state [n] st
+  = (node_state (CodecDump.K "tuple") (CodecDump.K "builtins") (CodecDump.K "TupleNode")
+       [(CodecDump.K "content", JArr [json_state (show_Z n) (small_int_base + n)])] (d_next st), snd (fresh st)).
+Proof. intros H. unfold shape_state, fresh. cbn [shape_items]. unfold int_obj. rewrite H. reflexivity. Qed.
 
 (* the facts about classes are consistent with what the builtin container names denote *)
 Definition sane_names : list pstr :=
@@ -1636,6 +1660,139 @@ Section Share.
     destruct x; try (subst c; reflexivity). destruct sc; try (subst c; reflexivity). reflexivity.
   Qed.
 
+  Lemma minR_steps m ns m1 R : minR m R -> (forall x, In x ns -> sub x R) -> grow m ns m1 -> minR m1 R.
+  Proof.
+    intros Hm Hs Hg h Hh. destruct (Hg h Hh) as [H|H]; [auto|]. apply in_flat_map in H. destruct H as [x [Hx Hh']].
+    eapply ids_sub; [apply Hs; exact Hx|exact Hh'].
+  Qed.
+
+  (* ---- rank-1 object arrays: the cells travel as the content of the list tolist() creates (only its content is kept),
+     the shape as a fresh tuple around the cached small int len(obj) ---- *)
+  Lemma objarr_Q id cells :
+    let n := Z.of_nat (length cells) in
+    Objs (PObjArr id (s "numpy") (s "ndarray") [n] cells) ->
+    is_small_int n = true -> scalar_rt_ok (SInt n) = true -> Objs (PScalar (small_int_base + n) (SInt n)) ->
+    Forall Q cells -> Q (PObjArr id (s "numpy") (s "ndarray") [n] cells).
+  Proof.
+    intros n Hv Hsm Hrt Hio HQ st j st3 H Hb. cbn [get_state map] in H.
+    replace (Z.to_nat n) with (length cells) in H by (unfold n; rewrite Nat2Z.id; reflexivity).
+    rewrite (tolist_rank1 (fun x s0 => get_state D x s0)) in H.
+    destruct (fresh st) as [lid sta] eqn:Hfr.
+    destruct (states_of _ cells sta) as [[js st1]|] eqn:E0; [|discriminate H]. cbn [bind] in H.
+    change (jindex (list_state js lid) (CodecDump.K "content")) with (Ok (A:=json) (JArr js)) in H. cbn [bind] in H.
+    rewrite (shape_state_small n st1 Hsm) in H.
+    set (i := (small_int_base + n)%Z) in *.
+    set (shj := node_state (CodecDump.K "tuple") (CodecDump.K "builtins") (CodecDump.K "TupleNode")
+                  [(CodecDump.K "content", JArr [json_state (show_Z n) i])] (d_next st1)) in H.
+    set (st2 := snd (fresh st1)) in H.
+    pose proof (Oid _ Hv) as Hid. cbn [pid] in Hid.
+    set (v := PObjArr id (s "numpy") (s "ndarray") [n] cells) in *.
+    match type of H with Ok (?a, _) = _ => set (jv := a) in H end.
+    injection H as <- <-.
+    assert (Hd : lid = d_next st /\ d_next sta = (d_next st + 1)%Z /\ d_late sta = d_late st /\ d_members sta = d_members st /\ d_uuid sta = d_uuid st).
+    { unfold fresh in Hfr. injection Hfr as <- <-. cbn. repeat split; reflexivity. }
+    destruct Hd as [-> [Hna [Hla [Hma Hua]]]].
+    assert (Hd2 : d_next st2 = (d_next st1 + 1)%Z /\ d_late st2 = d_late st1 /\ d_members st2 = d_members st1 /\ d_uuid st2 = d_uuid st1)
+      by (unfold st2, fresh; cbn; repeat split; reflexivity).
+    destruct Hd2 as [Hn2 [Hl2 [Hm2 Hu2]]].
+    destruct (states_share cells HQ _ _ _ E0 ltac:(lia)) as [Hlate1 [Hnext1 [[Hlk1 [Hft1 Hmok1]] HL]]].
+    split; [congruence|]. split; [lia|].
+    assert (Hftj : file_table jv = flat_map file_table js).
+    { unfold jv. rewrite ft_node_state by reflexivity. cbn [dget flat_map snd app].
+      change (pstr_eqb (s "file") (CodecDump.K "content")) with false. change (pstr_eqb (s "file") (CodecDump.K "type")) with false.
+      change (pstr_eqb (s "file") (CodecDump.K "shape")) with false. cbn iota. rewrite file_table_arr.
+      replace (file_table shj) with (@nil (hkey * json)) by reflexivity. cbn [file_table app]. rewrite !app_nil_r. reflexivity. }
+    assert (Hmoka : MOK st -> MOK sta) by (intros Hm0; apply (MOK_next st sta); [exact Hma|lia|lia|exact Hm0]).
+    assert (Hmok2 : MOK st1 -> MOK st2) by (intros Hm0; apply (MOK_next st1 st2); [exact Hm2|lia|lia|exact Hm0]).
+    assert (Hpost : Post st jv st2).
+    { split; [rewrite Hm2, <- Hma; exact Hlk1|]. split; [|auto]. rewrite Hm2.
+      intros h x Hin. rewrite Hftj in Hin. apply in_flat_map in Hin. destruct Hin as [j0 [Hj0 Hin]].
+      exact (FTd_mono _ _ _ _ _ Hmoka (lk_refl _) (Hft1 j0 Hj0) h x Hin). }
+    split; [exact Hpost|].
+    intros fuelq mq slq Hnq Hmq [HpMOK [HpLk HpF0]]. revert fuelq mq slq Hnq Hmq.
+    assert (HpF : incl (file_table jv) files) by exact HpF0. rewrite Hm2 in HpLk.
+    unfold jv. change id with (pid v).
+    apply (Q_wrap v st st2 _ _ _ _ (s "_numpy.NdArrayNode") KNdArray); try assumption; try reflexivity; try (cbn [pid v]; lia); try (cbn; tauto).
+    intros fuel m sl Hn Hm Hmem. unfold v in Hn. cbn [need] in Hn. fold v in Hn. destruct fuel as [|fuel]; [lia|]. cbn [pid v]. fold jv.
+    assert (Hbd : forall rec, build E rec sl [] (s "_numpy.NdArrayNode") KNdArray m jv
+            = do (h, m0) <- node_init sl KNdArray (s "_numpy.NdArrayNode") [] true m jv JNull;
+              do (ns, m1) <- sub_list rec [] (GetTree.K "content") m0 js;
+              do (shn, m2) <- rec [] (SOne (GetTree.K "shape")) m1 shj;
+              Ok (Node (set_aux h (JStr (GetTree.K "json"))) (or_empty (GetTree.K "content") LEmptyList ns ++ [shn]), m2)).
+    { intros rec. unfold build. destruct (node_init _ _ _ _ _ _ _ _) as [[h m0]|]; reflexivity. }
+    rewrite Hbd. unfold jv at 1. rewrite init_eq by (try reflexivity; lia). cbn [bind]. clear Hbd.
+    (* the cells *)
+    destruct (HL (S fuel) (key id :: m) (GetTree.K "content")) as [ns [m1 [Hsub [Hsl [Hlen [Hmo [Hgr [Hlt [Hls Hal]]]]]]]]].
+    { intros x Hx. pose proof (max_map_in (fun x => need x) x cells Hx). cbn beta in *. lia. }
+    { apply memo_lt_cons; [lia|]. eapply memo_lt_le; [|exact Hm]. lia. }
+    { split; [apply Hmoka; exact HpMOK|]. split; [exact HpLk|]. intros j0 Hj0 e He. apply HpF. rewrite Hftj. apply in_flat_map. exists j0. auto. }
+    rewrite Hsub. cbn [bind].
+    (* the shape tuple, an object the dumper creates, around the cached small int *)
+    set (kt := PSeq QTuple (d_next st1) (s "builtins") (s "tuple") false [PScalar i (SInt n)]).
+    assert (HQi : Forall Q [PScalar i (SInt n)]) by (constructor; [apply scalar_Q; assumption|constructor]).
+    unfold shj at 1. rewrite (gt_step fuel (SOne (GetTree.K "shape")) m1 _ _ _ _ (d_next st1) (s "_general.TupleNode") KTuple);
+      [|reflexivity|cbn; tauto|reflexivity].
+    assert (Hmem2 : memo_mem (key (d_next st1)) m1 = false) by (apply (memo_lt_fresh _ (d_next st1)); [exact Hlt|lia]).
+    rewrite Hmem2.
+    assert (Hx1 : Objs kt \/ (base <= d_next st1)%Z) by (right; lia).
+    assert (Hx2 : (0 < d_next st1)%Z) by lia.
+    assert (Hx3 : (base <= d_next st2)%Z) by lia.
+    assert (Hst : states_of (fun x s0 => get_state D x s0) [PScalar i (SInt n)] st2 = Ok ([json_state (show_Z n) i], st2)) by reflexivity.
+    destruct (seq_node QTuple (d_next st1) (s "tuple") [PScalar i (SInt n)] st2 [json_state (show_Z n) i] st2 Hx1 Hx2 eq_refl HQi Hst Hx3
+                fuel m1 (SOne (GetTree.K "shape")) (d_next st2)) as [shn [m2 [Hkt [Hksl [Hknl [Hkmo [Hkgr [Hklt [Hksp Hkal]]]]]]]]].
+    { cbn [need max_map]. lia. }
+    { eapply memo_lt_le; [|exact Hlt]. lia. }
+    { lia. }
+    { lia. }
+    { exact Hmem2. }
+    { split; [apply Hmok2; apply Hmok1; apply Hmoka; exact HpMOK|]. split; [rewrite Hm2; exact HpLk|].
+      intros j0 [<-|[]] e He. destruct He. }
+    match goal with |- context [build E (get_tree fuel E proto) ?sl0 [] ?tg ?kk ?mm ?jj] =>
+      replace (build E (get_tree fuel E proto) sl0 [] tg kk mm jj) with (Ok (A:=node * memo) (shn, m2)) by (symmetry; exact Hkt) end.
+    cbn [bind]. clear Hkt. eexists. eexists. split; [reflexivity|].
+    set (hd := set_aux (mkh sl KNdArray (s "_numpy.NdArrayNode") id (s "ndarray") (s "numpy") JNull) (JStr (GetTree.K "json"))).
+    set (subs := or_empty (GetTree.K "content") LEmptyList ns ++ [shn]).
+    assert (Hin : forall x, In x ns -> In x subs).
+    { intros x Hx. unfold subs. apply in_or_app. left. destruct ns; [destruct Hx|exact Hx]. }
+    assert (Hins : In shn subs) by (unfold subs; apply in_or_app; right; left; reflexivity).
+    assert (Hm0R : forall R, sub (Node hd subs) R -> minR m R -> minR (key id :: m) R).
+    { intros R Hs HmR h Hh. cbn [memo_mem] in Hh. apply orb_prop in Hh. destruct Hh as [Hh|Hh]; [|auto].
+      apply hkey_eqb_eq in Hh. subst h. eapply ids_sub; [exact Hs|]. cbn [ids]. unfold own_ids, hd. cbn [set_aux mkh h_id]. left. reflexivity. }
+    assert (Hsp : SpecN (Node hd subs) v m).
+    { intros R Hs HmR Hg cf Hcf. destruct cf as [|cf]; [pose proof (need_pos v); lia|]. cbn [construct_val].
+      unfold v in Hcf. cbn [need] in Hcf. fold v in Hcf.
+      assert (Hkv : construct_val C files R cf shn = Ok kt).
+      { apply (Hksp R); [eapply sub_child; [exact Hs|exact Hins]| | |cbn [need max_map]; lia].
+        - eapply minR_steps; [apply Hm0R; eassumption| |exact Hgr]. intros x Hx. eapply sub_child; [exact Hs|apply Hin; exact Hx].
+        - eapply HG_mono; [|exact Hg]. unfold v. cbn [size sum_map]. lia. }
+      assert (Hmap : mapM (construct_val C files R cf) ns = Ok cells).
+      { apply mapM_den.
+        - apply (Hls R (size v)).
+          + intros x Hx. eapply sub_child; [exact Hs|apply Hin; exact Hx].
+          + apply Hm0R; assumption.
+          + exact Hg.
+          + intros w Hw. pose proof (sum_map_in (fun x => size x) w cells Hw). unfold v. cbn [size]. cbn beta in *. lia.
+        - intros w Hw. pose proof (max_map_in (fun x => need x) w cells Hw). cbn beta in *. lia. }
+      unfold cbody, hd, set_aux, mkh. cbn [h_kind h_aux h_id h_module h_class h_slot h_tag h_extra].
+      change (jstr_eqb (JStr (GetTree.K "json")) (s "numpy")) with false. cbn iota.
+      unfold subs. rewrite rev_unit, Hkv. cbn [bind kt as_items]. rewrite rev_involutive, (strip_or_empty _ _ Hsl), Hmap. cbn [bind].
+      unfold nid, key. cbn [h_id]. rewrite key_div. reflexivity. }
+    unfold Res. cbn [node_slot notleaf]. repeat split.
+    - eapply mono_trans; [apply mono_cons|]. eapply mono_trans; eauto.
+    - intros h Hh. cbn [flat_map ids]. rewrite app_nil_r. destruct (Hkgr h Hh) as [H|H].
+      + destruct (Hgr h H) as [H'|H'].
+        * cbn [memo_mem] in H'. apply orb_prop in H'. destruct H' as [H'|H']; [|left; exact H'].
+          apply hkey_eqb_eq in H'. subst h. right. apply in_or_app. left. left. reflexivity.
+        * right. apply in_or_app. right. apply in_flat_map in H'. destruct H' as [x [Hx Hh']]. apply in_flat_map. exists x.
+          split; [apply Hin; exact Hx|exact Hh'].
+      + right. apply in_or_app. right. cbn [flat_map] in H. rewrite app_nil_r in H. apply in_flat_map. exists shn. split; [exact Hins|exact H].
+    - exact Hklt.
+    - apply Spec_of_SpecN. exact Hsp.
+    - apply (allok_node hd subs v m); [reflexivity|left; exact Hv|exact Hsp|eapply mono_trans; [apply mono_cons|eapply mono_trans; eauto]|].
+      intros x Hx. unfold subs in Hx. apply in_app_or in Hx. destruct Hx as [Hx|[<-|[]]]; [|exact Hkal].
+      destruct ns as [|n1 ns']; [destruct Hx as [<-|[]]; apply allok_leaf|]. eapply allok_mono; [exact Hkmo|]. apply Hal. exact Hx.
+  Qed.
+
   (* ---- the proved fragment, with the objects of the value registered in Objs ---- *)
   Fixpoint vok (v : pval) {struct v} : Prop :=
     Objs v /\
@@ -1655,6 +1812,12 @@ Section Share.
     | PFunc _ mo c | PType _ mo c => resolvable F mo c = true
     | POpFunc _ c a => resolvable F (s "operator") c = true /\ opfunc_attrs_ok c a /\ vok a
     | PArr _ gen mo c _ => arr_cls_ok gen mo c
+    | PObjArr _ mo c shape cells =>
+        (* rank 1; len(obj) is a cached small int, an object of the value's universe *)
+        mo = s "numpy" /\ c = s "ndarray" /\ shape = [Z.of_nat (length cells)]
+        /\ is_small_int (Z.of_nat (length cells)) = true /\ scalar_rt_ok (SInt (Z.of_nat (length cells))) = true
+        /\ Objs (PScalar (small_int_base + Z.of_nat (length cells)) (SInt (Z.of_nat (length cells))))
+        /\ (fix all (l : list pval) : Prop := match l with [] => True | x :: l' => vok x /\ all l' end) cells
     | PSparse _ _ _ _ | PDType _ _ => True
     | PMasked _ mo c d k => mo = s "numpy.ma" /\ c = s "MaskedArray" /\ vok d /\ vok k
     | PRandState _ mo c x => resolvable F mo c = true /\ vok x
@@ -1693,7 +1856,8 @@ Section Share.
       apply Forall_map_snd. eapply Forall_imp2; [exact IH|apply vok_vals; exact Hvals].
     - intros id mo c f l IHf IH [Ho [-> [-> [Hi [Hf Hvals]]]]]. apply defdict_Q; try assumption; [apply IHf; exact Hf|].
       apply Forall_map_snd. eapply Forall_imp2; [exact IH|apply vok_vals; exact Hvals].
-    - intros; cbn [vok] in *; tauto.
+    - intros id mo c sh l IH [Ho [-> [-> [-> [Hsm [Hrt [Hio Hall]]]]]]]. apply objarr_Q; try assumption.
+      eapply Forall_imp2; [exact IH|apply vok_all; exact Hall].
     - intros id mo c d k IHd IHk [Ho [-> [-> [Hd Hk0]]]]. apply masked_Q; auto.
     - intros id mo c x IHx [Ho [Hr Hx]]. apply randstate_Q; auto.
     - intros id mo c x y IHx IHy [Ho [Hr [Hx Hy]]]. apply randgen_Q; auto.
